@@ -581,7 +581,7 @@ PROPS.update({
                           "Bounded: the whole conv pipeline (unroll, reshape, matmul, expand_conv) per concrete class incl. batch absent/1/2.",
             "level_note": _OP_NOTE,
             "explanation": "Kernels proved for all sizes, pipeline bounded."},
-    "C07": {"level": "model_checking", "kani_groups": ["h_ops.rs"], "instances": c07_instances,
+    "C07": {"level": "model_checking", "kani_groups": ["h_elementwise.rs", "h_ops.rs"], "instances": c07_instances,
             "technique": "bounded Kani contract instances of sum(k), sum_all, reshape, the point-wise maps and softmax per concrete shape / parameter",
             "level_text": "Bounded: every function is checked against the statement for concrete shapes (thorough: rank <= 4, every k) with symbolic "
                           "values; point-wise maps bitwise against the same scalar expression; sums on the exact domain.",
